@@ -445,3 +445,32 @@ def amend_that_reproduces_the_same_commit_id():
         return _final(s)
     finally:
         s.destroy()
+
+
+def rebase_that_drops_every_commit_keeps_pending_work():
+    """D91 (fixed): the topic branch's only commit is already upstream (picked there, followed by another upstream commit); an agent has
+    written new.txt (untracked, reported) on the topic; `git rebase main` drops the commit as already applied and HEAD moves to main;
+    commit => the agent's lines were a person's: with no rebased commit the rebase handler returned early and the working log stayed
+    keyed by the old HEAD (likewise when the branch is merely behind and the rebase fast-forwards)."""
+    kinds_all, detail = [], []
+    for variant in ("already-upstream", "fast-forward"):
+        s = _mk("d91" + variant[:2], files=1)
+        try:
+            f0 = [s.line("human") for _ in range(3)]
+            s.human_write("f.txt", f0); s.commit_all("init")
+            s.g("checkout", "-q", "-b", "topic")
+            if variant == "already-upstream":
+                s.human_write("f.txt", f0 + [s.line("human")]); s.commit_all("topic commit")
+                s.g("checkout", "-q", "main")
+                s.g("cherry-pick", "topic")
+            else:
+                s.g("checkout", "-q", "main")
+            s.human_write("up.txt", [s.line("human")]); s.commit_all("upstream moves on")
+            s.g("checkout", "-q", "topic")
+            s.ai_write("S1", "new.txt", [s.line("S1"), s.line("S1")])
+            s.g("rebase", "main")
+            ks, d = _final(s)
+            kinds_all += [k + "@" + variant for k in ks]; detail += d
+        finally:
+            s.destroy()
+    return sorted(set(kinds_all)), detail[:6]
